@@ -76,6 +76,34 @@ func H_C18_order() {
 }
 
 // H_C18_last_wins: the last of repeated options wins.
+// H_C18_budget_last_wins: the parse budget is an option like the others — the
+// last one given decides, also when it is 0 (unlimited) after a tiny one, or
+// tiny after a generous one; creation succeeds or fails accordingly.
+func H_C18_budget_last_wins() {
+	expr := []string{`a == 1`, `a == 1 and B == "s"`, `any W as k, v { v == 1 }`}[vChoose(3)]
+	budgets := []uint64{0, 3, 1 << 40, 50}
+	b1, b2 := budgets[vChoose(4)], budgets[vChoose(4)]
+	var mid []Option
+	switch vChoose(3) {
+	case 1:
+		mid = []Option{WithTagName("bexpr")}
+	case 2:
+		mid = []Option{WithUnknownValue(1), WithHookFn(hookIdentityC18)}
+	}
+	opts := append(append([]Option{WithMaxExpressions(b1)}, mid...), WithMaxExpressions(b2))
+	e1, err1 := CreateEvaluator(expr, opts...)
+	e2, err2 := CreateEvaluator(expr, WithMaxExpressions(b2))
+	vAssert((err1 == nil) == (err2 == nil), "the last budget decides whether creation succeeds")
+	vAssert((e1 == nil) == (err1 != nil), "evaluator xor error")
+	if err1 == nil && err2 == nil {
+		d := datumC18()
+		o1, _, _ := evalO(e1, d)
+		o2, _, _ := evalO(e2, d)
+		vAssert(o1 == o2, "and nothing else changes")
+	}
+	vCover("reached")
+}
+
 func H_C18_last_wins() {
 	expr := exprsC18[vChoose(len(exprsC18))]
 	k := vChoose(4)
